@@ -15,7 +15,10 @@ Inductive world :=
 | WBulk (s : script) (tag first count : N)
 (* a script of [count] new_term calls (ids first, first+stride, ...) and nothing else, built with
    build_minimal: Model/ManyTerms.v *)
-| WMany (ver : N * N * N) (first stride count : N).
+| WMany (ver : N * N * N) (first stride count : N)
+(* the ontology of [w] with the category and modifier groups replaced through the public
+   categories_mut() / modifier_mut() (any ids, not only the default roots) *)
+| WCustom (w : world) (cats mods : list N).
 
 (* the f32::ln oracle table travels with the case *)
 Definition winput : Type := world * list (N * N).
@@ -56,6 +59,12 @@ Fixpoint build_world (tbl : list (N * N)) (w : world) : res (list N * res onto) 
               else Panic
           end
       | _ => Ok ([], snd r)
+      end
+  | WCustom w' cats mods =>
+      do r <- build_world tbl w' ;;
+      match snd r with
+      | Ok o => Ok (fst r, Ok (set_cat (g_from_list cats) (set_mod (g_from_list mods) o)))
+      | _ => Ok r
       end
   end.
 
